@@ -54,6 +54,17 @@ CHECKS = {
             "dt_dtadd in s/m/h up to 2^31-1 s, dt_dtdiff(DT_DURS) incl. pairs > 68 years apart, epoch in/out and 24:00:00 are compared with "
             "<<chain day, second of day>> arithmetic in 5 notations; dadd/ddiff/dconv events are validated by ClockTrace.tla",
             "days are a stride + boundary windows, seconds-of-day and counts are enumerated boundary sets + seeded; known findings: epoch value 0, negative epoch on stdin, day-count tail", "5 C11"),
+    "C13": ("model_checking", "TLA+ Tool (RunAll = concat RunOne; poisoning cache refuted), CycleTable (wrap; no-clear variant refuted), ZoneImpl model-checked; N-input runs vs N single runs validated by ToolTrace; strops histories vs libc",
+            "the no-hidden-state law is model-checked for the cache mechanism (Tool.tla), the generation-counter table (CycleTable.tla, across wraps) and "
+            "the zone lookup (ZoneImpl.tla); for every line-oriented tool/option set runs on N inputs are compared by ToolTrace.tla with N single-input "
+            "runs, with inputs priming each state (permutations of zone-table ranges, 300 needle searches, mixed value kinds, bad lines, durations)",
+            "outputs are split along single-run lengths; N <= 6 per run (300 for the needle counter); zones: 25|200 files", "5 C13"),
+    "C19": ("fault_enumeration", "TLA+ Loader (Safe/Exact; unchecked loader refuted) and TzMap (bisection refines Find, Progress) model-checked; every model state + every truncation/corruption replayed on zif_open/tzm_open/tzm_find under ASan; lookups validated by TzMapTrace",
+            "fault enumeration driven by the models: all 60k|487k Loader states and every truncation length / header-count / version / type-index "
+            "corruption of 6|9 seed zone files are opened by the real loader with the image in an exact-size heap block under ASan+bounds and then "
+            "queried; every TzMap layout is compiled with tzmap cc and all present, neighbouring and absent keys looked up (TzMapTrace.tla), compiled "
+            "maps are truncated and corrupted word by word",
+            "memory safety is observed by the sanitizer (mmap redirected to an exact-size heap copy); counts in the model are 0..1", "5 C19"),
 }
 NOT_APPLICABLE = []
 
